@@ -35,6 +35,7 @@ PREFIX = [
     ["group_by", [src("g")]],
     ["arrange", [["desc", src("k")]]],
     ["mutate", [["y", ["mul", src("k"), lit(2)]]]],
+    ["summarize", [["m", ["max", src("x")]]]],  # drops columns: their references must stay dead after re-rooting
 ]
 REROOT = [
     ["alias"],
@@ -109,8 +110,38 @@ def probes(ex, hist, mstates):
     return out
 
 
+def plain_explorer(world):
+    return X.Explorer(world, alphabet=lambda st, hist: [], checks=[], depth=9, oracle="model", names="list")
+
+
+def check_origin_left(step):
+    """the re-rooted table as the RIGHT operand of a join with its own origin: T >> join(<history
+    incl. alias()>, T.n == right.n) and then every origin reference T.k / T.g / T.x is probed on
+    the joined table (columns the history dropped on the right must not capture them)"""
+    ev = step.event
+    if not is_reroot(ev) or isinstance(step.mres, M.Reject):
+        return []
+    new_origin = (ev[0] == "alias" and not (len(ev) > 2 and ev[2])) or (ev[0] == "collect" and len(ev) > 1 and not ev[1])
+    if not new_origin or step.mres.group:
+        return []
+    vs = []
+    side = {"src": "T", "hist": step.hist[1:]}
+    common = [n for n in step.mres.names() if n in ("k", "g", "x")]
+    for n in common[:2]:
+        for how in ("inner", "left"):
+            join = ["join", side, how, [["eq", src(n), ["col", "right", n]]], {"suffix": "_a"}]
+            for c in ("k", "g", "x"):
+                h = [["source", "T"], join, ["mutate", [["probe", src(c)]]]]
+                step.explorer.stats["origin_left_join_histories"] += 1
+                res, idx = X.check_history(plain_explorer, step.world, h)
+                vs.extend(res or [])
+                if res:
+                    break
+    return vs
+
+
 def make_explorer(world, depth=2):
-    return X.Explorer(world, alphabet=alphabet, checks=[], depth=depth, oracle="model", names="list", probes=probes, size=size)
+    return X.Explorer(world, alphabet=alphabet, checks=[check_origin_left], depth=depth, oracle="model", names="list", probes=probes, size=size)
 
 
 N_FIRST = len(PREFIX) + len(REROOT)
@@ -143,7 +174,8 @@ def describe(tier):
         "uses": ["export (every state is compared with the model: names, order, rows)", "mutate(probe=T.k / T.g / T.x)",
                  "mutate(probe=<reference of every intermediate table before the re-rooting>)", "mutate(probe=<own reference of every visible column>)",
                  "inner and left self-join with the origin (same prefix on the source) on every visible column",
-                 "filter / summarize / mutate / ungroup after the re-rooting (grouping survives collect())"],
+                 "filter / summarize / mutate / ungroup after the re-rooting (grouping survives collect())",
+                 "the re-rooted table as RIGHT operand of a join with its origin (T >> join(<history incl. alias()>, T.n == right.n)), then probes of T.k / T.g / T.x"],
         "input_family": "2 tables (nulls, a null group; duplicate rows)",
         "backends": ["polars", "sqlite (collect is polars-only)"],
         "oracle": "reference model of identity: alias()/collect(keep_col_refs=False) issue new references (origin references raise ColumnNotFoundError, self-join accepted), alias(keep_col_refs=True)/collect()/transfer keep the origin's references mapped to the same data (self-join refused with ValueError), data/names/order unchanged",
